@@ -66,6 +66,11 @@ func WithGlobalTx(ctx context.Context, gc *GtxConfig, business CallbackWithCtx) 
 	if re = begin(ctx, gc); re != nil {
 		return
 	}
+	if role := GetTxRole(ctx); role != nil && *role == Launcher && !IsGlobalTx(ctx) {
+		// the coordinator acknowledged the begin without a transaction id: there is nothing to commit or roll
+		// back later on, the business must not run as if it were in a transaction
+		return fmt.Errorf("global transaction %s was begun without a transaction id", gc.Name)
+	}
 
 	// set once the business function has returned: a panic(nil) (recover() answers nil for it under
 	// this module's go version) or a runtime.Goexit leaves it false, and neither is a success
